@@ -469,3 +469,10 @@ Lemma add_appends_usage es k u e :
 Proof.
   intros He. simpl. eexists. split; [apply entries_find_update_same; [reflexivity | exact He]|]. simpl. auto.
 Qed.
+
+(* register_usage for a dialog that does not exist changes nothing *)
+Lemma add_usage_missing es k u : entries_find k es = None -> fst (layer_step es (AddUsage k u)) = es.
+Proof.
+  intros H. cbn [layer_step fst]. induction es as [|e r IH]; [reflexivity|]. cbn [entries_update entries_find] in *.
+  destruct (dkey_eqb (e_key e) k); [discriminate|]. now rewrite IH.
+Qed.
